@@ -7,7 +7,7 @@ BASE = ["NewGrp", "Sub", "Leave", "SetSelf", "SetOther", "DelSub", "Unload"]
 
 def run(ctx):
     return tc.run_topic_check(
-        ctx, "C07", kinds=KINDS, maxsubs=2 if ctx.seed % 2 == 0 else 3, p2p=True, root=True, special=True,
+        ctx, "C07", kinds=KINDS, maxsubs=2 if ctx.seed % 2 == 0 else 3, p2p=True, root=True, special=True, chan=True,
         want=["-", "N", "JR", "JRS", "JRA", "JRASO", "JRWPASD", "RWP"], given=["-", "N", "JR", "RWP", "JRS", "JRAS", "JRASO", "JRWPASD"], maxseq=0,
         u1_quick={"want": ["-", "N", "JRS", "JRA"], "given": ["-", "N", "JRS", "JRA"], "kinds": BASE},
         u1_thorough={"want": ["-", "N", "JRS", "JRA", "JRASO"], "given": ["-", "N", "JR", "JRS", "JRASO"], "kinds": BASE},
